@@ -393,7 +393,7 @@ def correspondence(ctx):
                         "model": cm[pos - 1], "impl": r["dry"]["cum"][-1]})
         evals += 1
     # normal process exit without close
-    for ops in seqs[: ctx.n(6, 30)]:
+    for ops in seqs[: ctx.n(3, 20)]:
         lines, rl, ro, _ = normal_exit_case(ops)
         m = drv.batch(["jrn.start -"] + lines[1:] + rl)
         evals += 1
@@ -450,8 +450,9 @@ def ref_states(ops, lines):
             i = I if op[3] is None else op[3]
             ok = not ((op[2] is not None and o <= 0) or (op[3] is not None and i <= 0))
             fits = lambda x: -I63 <= x < I63  # noqa
-            if ok and fits(o - 1) and fits(i - 1) and fits(K):
-                # property: the renumbering is applied entirely (or, if it raises, not at all – see classify)
+            if ok and fits(o - 1) and fits(i - 1) and fits(K) and fits(o) and fits(i):
+                # property: a renumbering that returns is applied entirely; one that raises (a number that SQLite
+                # cannot hold) must leave nothing behind
                 if str(K) in counters:
                     counters[str(K)] = [o, i]
                 for key in [key for key in rows if key[0] == K and key[2] >= (o if key[1] == 1 else i)]:
